@@ -327,8 +327,12 @@ fn generate(tier: &str, seed: u64) -> (Vec<String>, BTreeMap<&'static str, u64>)
             } else if k < 85 {
                 ctrs[s] = (ctrs[s] + rng.range(2, 40)) & 0xffff_ffff;
                 ctrs[s]
-            } else {
+            } else if s % 4 == 3 {
+                // every fourth sender is "wild": arbitrary values (the ring wraps around; compared with
+                // the model only, the table monitor skips senders outside a half-ring band)
                 rng.below(1 << 32)
+            } else {
+                ctrs[s].wrapping_sub(rng.range(0, 40)) & 0xffff_ffff
             };
             // a few senders share node ids across fabrics
             let fab = 1 + (s as u64 % 3);
